@@ -100,79 +100,6 @@ func checkCase(c Case, rec *evid.Rec) error {
 	return checkPos(&p, c.Direct, rec)
 }
 
-// enumerate visits every valid placement of the given non-king pieces (codes, signed) plus both kings, both sides to move.
-// slice/of restrict the enumeration to white king squares wk with wk % of == slice.
-func enumerate(pieces []int8, slice, of int, visit func(p *refchess.Pos) bool) bool {
-	var p refchess.Pos
-	p.EP, p.Full = -1, 1
-	var rec func(i int) bool
-	rec = func(i int) bool {
-		if i == len(pieces) {
-			for _, w := range []bool{true, false} {
-				p.White = w
-				if p.Valid() == nil {
-					if !visit(&p) {
-						return false
-					}
-				}
-			}
-			return true
-		}
-		lo, hi := 0, 63
-		if pieces[i] == refchess.Pawn || pieces[i] == -refchess.Pawn {
-			lo, hi = 8, 55
-		}
-		for sq := lo; sq <= hi; sq++ {
-			if p.Sq[sq] != 0 {
-				continue
-			}
-			// identical pieces: enforce ascending squares to avoid duplicates
-			if i > 0 && pieces[i] == pieces[i-1] {
-				dup := false
-				for s2 := sq + 1; s2 <= 63; s2++ {
-					if p.Sq[s2] == pieces[i] {
-						dup = true
-					}
-				}
-				if dup {
-					continue
-				}
-			}
-			p.Sq[sq] = pieces[i]
-			ok := rec(i + 1)
-			p.Sq[sq] = 0
-			if !ok {
-				return false
-			}
-		}
-		return true
-	}
-	for wk := 0; wk < 64; wk++ {
-		if wk%of != slice {
-			continue
-		}
-		p.Sq[wk] = refchess.King
-		for bk := 0; bk < 64; bk++ {
-			if bk == wk {
-				continue
-			}
-			df, dr := wk%8-bk%8, wk/8-bk/8
-			if df >= -1 && df <= 1 && dr >= -1 && dr <= 1 {
-				continue
-			}
-			p.Sq[bk] = -refchess.King
-			ok := rec(0)
-			p.Sq[bk] = 0
-			if !ok {
-				p.Sq[wk] = 0
-				return false
-			}
-		}
-		p.Sq[wk] = 0
-	}
-	return true
-}
-
 const (
 	P = refchess.Pawn
 	N = refchess.Knight
@@ -190,7 +117,7 @@ func TestC09(t *testing.T) {
 		// complete 3-man tables
 		for k := int8(P); k <= Q; k++ {
 			for _, col := range []int8{1, -1} {
-				if !enumerate([]int8{k * col}, shard, n, func(p *refchess.Pos) bool {
+				if !gen.Enumerate([]int8{k * col}, shard, n, func(p *refchess.Pos) bool {
 					if err := checkPos(p, true, rec); err != nil {
 						rec.Violate("table", err.Error(), Case{FEN: p.FEN(), Direct: true})
 						return false
@@ -211,7 +138,7 @@ func TestC09(t *testing.T) {
 				sl = (shard*8 + ci) % of
 			}
 			cnt := 0
-			if !enumerate(cl, sl, of, func(p *refchess.Pos) bool {
+			if !gen.Enumerate(cl, sl, of, func(p *refchess.Pos) bool {
 				cnt++
 				if err := checkPos(p, true, rec); err != nil {
 					rec.Violate("table", err.Error(), Case{FEN: p.FEN(), Direct: true})
